@@ -435,7 +435,7 @@ def check_callbacks(chk):
 def run(chk):
     chk.rule('C04.W', 'assignment target by scope (3 abstract cases, abstract execution); enumerated writers of the globals object', floor=5)
     chk.rule('C04.F', 'fresh locals frame per call (abstract calls); top level and includes run with locals None', floor=3)
-    chk.rule('C04.L', 'lookup order: keywords, locals (membership), globals; functions: locals, globals, built-ins under flag', floor=3)
+    chk.rule('C04.L', 'lookup order: keywords, locals (membership), globals; functions: locals, globals, built-ins under flag (abstract evaluation, E6e)', floor=1)
     chk.rule('C04.I', 'library injection never overwrites a caller-supplied name (membership filter)', floor=1)
     chk.rule('C04.R', 'function statement stores unconditionally a callable bound to its own function object', floor=1)
     chk.rule('C04.B', 'parameter binding decision table', floor=6)
@@ -445,16 +445,9 @@ def run(chk):
     chk.guard('C04.W', check_assignment, chk)
     chk.guard('C04.W', check_global_stores, chk)
     chk.guard('C04.F', check_frames, chk)
-    chk.guard('C04.L', check_variable_lookup, chk, ee)
-    from .c03 import check_lookup
-    before = len(chk.instances)
-    chk.guard('C04.L', check_lookup, chk, ee)
-    for inst in chk.instances[before:]:
-        if inst['rule'] == 'C03.B':
-            inst['rule'] = 'C04.L'
-    for f in chk.findings:
-        if f.rule == 'C03.B':
-            f.rule = 'C04.L'
+    from .. import evalsim
+    chk.guard('C04.L', evalsim.report, chk, {'lookup': 'C04.L'}, {'lookup': 'variables: keywords, then locals by membership (a local bound to null shadows the global), then globals; '
+                                                                          'functions: locals, globals, built-ins only under the builtins flag; undefined function raises'})
     chk.guard('C04.I', check_injection, chk)
     chk.guard('C04.R', check_function_statement, chk)
     chk.guard('C04.B', check_binding, chk)
